@@ -336,7 +336,7 @@ def make_items(tier, seed):
             allx.append(sp)
     if tier == "thorough":
         return allx
-    return slice_quick(allx, seed, len(core), 1200)
+    return slice_quick(allx, seed, len(core), 2400)
 
 
 _REC = None
